@@ -2,7 +2,7 @@
 import ast
 
 from ..pymodel import AnalysisError, FuncInfo, parent
-from ..astutil import (canon, src, is_name, is_const, const_num, call_name, walk_no_nested, strip_docstring,
+from ..astutil import (expand_names, canon, src, is_name, is_const, const_num, call_name, walk_no_nested, strip_docstring,
                        compare_atoms, enclosing_stmt, calls_in, names_in, assignments_to, literal_tuple)
 from ..cfg import cfg_of, ENTRY, EXIT
 
@@ -72,7 +72,7 @@ def result_type_dispatch(ctx, rid):
             for v in defs:
                 v = canon(v) if isinstance(v, ast.IfExp) else v
                 if isinstance(v, ast.IfExp):
-                    t = v.test
+                    t = expand_names(fn.node, v.test)       # `kind = type(Q)` named first
                     okt = False
                     if isinstance(t, ast.Compare) and len(t.ops) == 1 and isinstance(t.ops[0], (ast.Eq, ast.Is)):
                         sides = [src(t.left), src(t.comparators[0])]
@@ -103,8 +103,15 @@ def canonical_key_use(ctx, rid):
         for lp in [x for x in ast.walk(f.node) if isinstance(x, ast.For) and isinstance(x.target, ast.Tuple) and x.target.elts
                    and isinstance(x.target.elts[0], ast.Name)]:
             raw = x_raw = lp.target.elts[0].id
-            canon = [st for st in lp.body if isinstance(st, ast.Assign) and isinstance(st.value, ast.Call)
-                     and call_name(st.value) == 'squash_key' and len(st.value.args) == 1 and is_name(st.value.args[0], raw)
+            def _squashes(v_):
+                # squash_key(raw), or `raw if <already canonical> else squash_key(raw)` (either way round)
+                if isinstance(v_, ast.Call) and call_name(v_) == 'squash_key' and len(v_.args) == 1 and is_name(v_.args[0], raw):
+                    return True
+                if isinstance(v_, ast.IfExp):
+                    arms = [v_.body, v_.orelse]
+                    return any(_squashes(a_) for a_ in arms) and all(_squashes(a_) or is_name(a_, raw) for a_ in arms)
+                return False
+            canon = [st for st in lp.body if isinstance(st, ast.Assign) and _squashes(st.value)
                      and len(st.targets) == 1 and isinstance(st.targets[0], ast.Name) and st.targets[0].id != raw]
             if not canon:
                 continue
